@@ -88,7 +88,7 @@ func (propC08) Gen(r *Rng, tier string) *World {
 		for i := 0; i < ns; i++ {
 			switch x := r.Intn(10); {
 			case x < 7:
-				s := Step{Op: "compile", Expr: r.Intn(np), Mask: r.Intn(16), Arg: []string{"none", "0", "1", "2", "3"}[r.Intn(5)]}
+				s := Step{Op: "compile", Expr: r.Intn(np), Mask: r.Intn(16), Arg: []string{"none", "0", "1", "2", "3", "4", "5"}[r.Intn(7)]}
 				cp := Plan{Kind: "compile"}
 				if r.P(0.3) {
 					ref := RefL2R(&w.Cfg, ops, w.Progs[s.Expr], &w.Calls[0])
@@ -207,10 +207,11 @@ func mutateConfig(cc *eval.Config) {
 }
 
 type c08out struct {
-	Err    string
-	Dump   string
-	Abort  bool
-	Behave []callResult
+	Recompile string // non-empty: recompiling the same source on the same config gave another program
+	Err       string
+	Dump      string
+	Abort     bool
+	Behave    []callResult
 }
 
 func (a c08out) diff(b c08out) string {
@@ -287,6 +288,24 @@ func (rn *c08run) compileStep(cc *eval.Config, host *OpHost, s Step, yield func(
 		return
 	}
 	out.Dump = eval.Dump(e)
+	// "compiling the same source with an equal config, again, yields an
+	// equivalent program": recompile a few times right away; anything inside
+	// Compile that depends on Go map order shows up here within one run
+	if !pure && len(s.Plan.FailOps) == 0 && s.Plan.AbortAt == 0 {
+		for k := 0; k < 12; k++ {
+			host.CompileEnv = NewEnv(rn.ops, &Plan{})
+			e2, err2 := eval.Compile(cc, src)
+			if err2 != nil {
+				out.Dump += "\n;; recompile " + strconv.Itoa(k) + " failed"
+				break
+			}
+			if d2 := eval.Dump(e2); d2 != out.Dump {
+				out.Recompile = fmt.Sprintf("compile #1: %s\ncompile #%d: %s", oneLine(out.Dump), k+2, oneLine(d2))
+				break
+			}
+		}
+		host.CompileEnv = cenv
+	}
 	c := &Compiled{Expr: e, Conf: cc, Host: host, Src: src}
 	if cc.CompileOptions[eval.ReportEvent] || cc.CompileOptions[eval.Debug] {
 		c.Ch = make(chan eval.Event, 4096)
@@ -519,6 +538,12 @@ func (pr propC08) Run(w *World, st *Stats) *Violation {
 			}
 			if o.Err != "" && o.Err != "compile error" {
 				return viol(w, "panic", "task %d step %d: Compile panicked: %s", ti, si, o.Err)
+			}
+			if o.Recompile != "" {
+				return viol(w, "nondeterministic-compile", "task %d step %d: compiling the same source with the same config again gives a different program:\n%s", ti, si, o.Recompile)
+			}
+			if base[ti][si].Recompile != "" {
+				return viol(w, "nondeterministic-compile", "task %d step %d (fresh equal config): compiling the same source again gives a different program:\n%s", ti, si, base[ti][si].Recompile)
 			}
 			if d := o.diff(base[ti][si]); d != "" {
 				return viol(w, "differs-from-isolation", "task %d step %d (compile program %d, directive style %s mask %d, %s): %s", ti, si, w.Tasks[ti][si].Expr, w.Tasks[ti][si].Arg, w.Tasks[ti][si].Mask, engine, d)
